@@ -18,7 +18,13 @@ subset understood (anything else raises Untranslatable — never a guess):
               `for s in L: s.spikes = e` where L was built in this function by a comprehension that constructs
               fresh SpikeTrain objects (so no two entries alias and nobody else sees the mutation) ↦ a map
 
-Every function becomes one Lean definition in the Option monad, statement by statement, names kept."""
+Every function becomes one Lean definition in the Option monad, statement by statement, names kept.
+
+Value semantics: the generated code has no object identity. That is sound for the subset because (checked, else
+Untranslatable) no mutable object gets a second name (`y = x` for a list / array / SpikeTrain is rejected), in-place
+operations (`x.sort()`, `acc += …`, `s.spikes = …` in a loop) are accepted only on objects created in the same function
+and not handed to anyone else before. Division is total in the rational model (`x / 0 = 0` where numpy yields nan / inf
+with a warning); the refinement theorems show every divisor."""
 import ast, os, sys
 try:
     from .py2lean import Untranslatable, ratlit, source_digest, check_no_rebinding, lname
@@ -60,6 +66,7 @@ class ApiFn:
         self.sq = name in SQ_FUNCS
         self.env = {n: t for n, t in sig}
         self.fresh = set()          # trainlist locals known to hold freshly constructed, pairwise distinct objects
+        self.fresh_arr = set()      # array locals created by a numpy call in this function and not aliased
         self.k = 0
         self.lines = []
 
@@ -277,16 +284,28 @@ class ApiFn:
                 n = s.targets[0].id
                 if n in self.env and self.env[n] != t:
                     self.bad(s, '%s changes its type' % n)
+                if isinstance(s.value, ast.Name) and t in ('ratlist', 'trainlist', 'train', 'ratlistlist'):
+                    self.bad(s, 'a second name for a mutable object (aliasing is not modelled)')
+                # an object taken out of a list, or a list built from its objects, is a second reference to them: the list
+                # can no longer be treated as the only holder of fresh objects
+                if t in ('train', 'trainlist'):
+                    for x in ast.walk(s.value):
+                        if isinstance(x, ast.Name) and x.id in self.fresh and not self.is_fresh_comp(s.value):
+                            self.fresh.discard(x.id)
                 self.env[n] = t
                 self.fresh.discard(n)
+                self.fresh_arr.discard(n)
                 if self.is_fresh_comp(s.value):
                     self.fresh.add(n)
+                if isinstance(s.value, ast.Call) and isinstance(s.value.func, ast.Attribute) and isinstance(s.value.func.value, ast.Name) \
+                        and s.value.func.value.id == 'np' and s.value.func.attr in ('concatenate', 'unique', 'sort', 'array'):
+                    self.fresh_arr.add(n)        # a new array nobody else refers to
                 self.lines.append('  let %s : %s := %s' % (lname(n), LEAN_TY[t], c))
             elif isinstance(s, ast.Expr) and isinstance(s.value, ast.Call) and isinstance(s.value.func, ast.Attribute) \
                     and s.value.func.attr == 'sort' and isinstance(s.value.func.value, ast.Name) and not s.value.args and not s.value.keywords:
                 n = s.value.func.value.id
-                if self.env.get(n) != 'ratlist':
-                    self.bad(s, '.sort() of something that is not a local array')
+                if self.env.get(n) != 'ratlist' or n not in self.fresh_arr:
+                    self.bad(s, '.sort() of something that is not a local array created in this function by a numpy call')
                 self.lines.append('  let %s : List Rat := npSort %s' % (lname(n), lname(n)))
             elif isinstance(s, ast.For) and isinstance(s.target, ast.Name) and isinstance(s.iter, ast.Name) and not s.orelse \
                     and all(isinstance(b, ast.Assign) for b in s.body):
@@ -338,8 +357,8 @@ class ApiFn:
                 # `for v in L: acc += e(v)` on a list accumulator: a left fold in the Option monad
                 acc, v = s.body[0].target.id, s.target.id
                 it, tit = self.cx(s.iter, self.env, True)
-                if self.env.get(acc) != 'ratlist' or tit not in ELEM or acc == v:
-                    self.bad(s, 'accumulation loop of an unsupported shape')
+                if self.env.get(acc) != 'ratlist' or tit not in ELEM or acc == v or acc in [n for n, _ in self.sig]:
+                    self.bad(s, 'accumulation loop of an unsupported shape (the accumulator must be a local list)')
                 if any(isinstance(x, ast.Name) and x.id == acc for x in ast.walk(s.body[0].value)) or \
                         any(isinstance(x, ast.Name) and x.id == acc for x in ast.walk(s.iter)):
                     self.bad(s, 'the accumulator is read inside its own update')
